@@ -364,6 +364,425 @@ theorem oRun_spec (hC : EncContract C Dec) {bufsz : Nat} (hb : 0 < bufsz) :
 
 end Enc2
 
+/-! ## `istream_xfrm` -/
+
+section DecSide
+variable {σ : Type} {C : Codec σ} {Dec : Bytes → Option Bytes}
+
+theorem IsPre.refl (a : Bytes) : IsPre a a := ⟨[], by simp⟩
+theorem IsPre.nil (a : Bytes) : IsPre [] a := ⟨a, rfl⟩
+theorem IsPre.take (a : Bytes) (n : Nat) : IsPre (a.take n) a := ⟨a.drop n, (List.take_append_drop n a).symm⟩
+theorem IsPre.append_right {a b : Bytes} (c : Bytes) (h : IsPre a b) : IsPre a (b ++ c) := by
+  obtain ⟨t, rfl⟩ := h; exact ⟨t ++ c, by simp⟩
+theorem IsPre.length_le {a b : Bytes} (h : IsPre a b) : a.length ≤ b.length := by
+  obtain ⟨t, rfl⟩ := h; simp
+theorem IsPre.trans {a b c : Bytes} (h1 : IsPre a b) (h2 : IsPre b c) : IsPre a c := by
+  obtain ⟨t, rfl⟩ := h1; obtain ⟨t', rfl⟩ := h2; exact ⟨t ++ t', by simp⟩
+
+theorem IsPre.drop_eq {v o x : Bytes} (h : IsPre (v ++ o) x) :
+    x.drop v.length = o ++ x.drop (v ++ o).length := by
+  obtain ⟨z, rfl⟩ := h
+  simp [List.append_assoc]
+
+theorem Members_flatten_nil (hnil : Dec [] = none) {ms xs : List Bytes} (h : Members Dec ms xs) (hf : ms.flatten = []) :
+    ms = [] ∧ xs = [] := by
+  cases h with
+  | nil => exact ⟨rfl, rfl⟩
+  | cons hm _ =>
+    rename_i m x ms' xs'
+    simp only [List.flatten_cons, List.append_eq_nil_iff] at hf
+    rw [hf.1, hnil] at hm; cases hm
+
+/-- a cut-off last member: `t` is empty, or a proper non-empty prefix of a valid member with content `xT` -/
+def CutOK (Dec : Bytes → Option Bytes) (t xT : Bytes) : Prop :=
+  (t = [] ∧ xT = []) ∨ (t ≠ [] ∧ ∃ t', t' ≠ [] ∧ Dec (t ++ t') = some xT)
+
+/--
+Ghost description of "decoder state `cs`, `rest` still in the wrapped stream, content `rem` still to come".
+`T` tells whether the stream ends inside a member.
+-/
+def G (hD : DecContract C Dec) (T : Bool) (cs : σ) (rest rem : Bytes) : Prop :=
+  (∃ u v w x ms xs t xT, hD.R cs u v ∧ Dec (u ++ w) = some x ∧ IsPre v x ∧ Members Dec ms xs ∧ CutOK Dec t xT ∧
+      (T = true ↔ t ≠ []) ∧ rest = w ++ (ms.flatten ++ t) ∧ rem = x.drop v.length ++ (xs.flatten ++ xT)) ∨
+  (∃ u v w' w'' x, T = true ∧ hD.R cs u v ∧ Dec (u ++ (w' ++ w'')) = some x ∧ IsPre v x ∧ w'' ≠ [] ∧
+      (u ≠ [] ∨ w' ≠ []) ∧ rest = w' ∧ rem = x.drop v.length) ∨
+  (T = false ∧ hD.R cs [] [] ∧ rest = [] ∧ rem = [])
+
+/-- at a member boundary -/
+theorem G_boundary (hD : DecContract C Dec) {T : Bool} {cs : σ} (hR : hD.R cs [] []) {ms xs : List Bytes} {t xT : Bytes}
+    (hms : Members Dec ms xs) (hcut : CutOK Dec t xT) (hT : T = true ↔ t ≠ []) :
+    G hD T cs (ms.flatten ++ t) (xs.flatten ++ xT) := by
+  cases hms with
+  | cons hm hrest =>
+    rename_i m x ms' xs'
+    left
+    exact ⟨[], [], m, x, ms', xs', t, xT, hR, by simpa using hm, IsPre.nil _, hrest, hcut, hT, by simp, by simp⟩
+  | nil =>
+    rcases hcut with ⟨ht, hx⟩ | ⟨ht, t', ht', hd⟩
+    · right; right
+      subst ht hx
+      refine ⟨?_, hR, by simp, by simp⟩
+      cases T with
+      | false => rfl
+      | true => exact absurd rfl (hT.1 rfl)
+    · right; left
+      exact ⟨[], [], t, t', xT, hT.2 ht, hR, by simpa using hd, IsPre.nil _, ht', Or.inr ht, by simp, by simp⟩
+
+/-- one `process_data` call while the wrapped stream still has data (`FLUSH_NONE`) -/
+theorem G_step_none (hD : DecContract C Dec) {T : Bool} {cs : σ} {rest rem : Bytes} (hG : G hD T cs rest rem)
+    (n room : Nat) (hn : 0 < n) (hnr : n ≤ rest.length) (hroom : 0 < room) :
+    ∀ r, r = C.step cs (rest.take n) room Flush.none →
+    r.res ≠ Res.error ∧ r.out.length ≤ room ∧ r.consumed ≤ n ∧
+    (∃ rem', G hD T r.st (rest.drop r.consumed) rem' ∧ rem = r.out ++ rem') ∧
+    (r.res = Res.bufferFull → r.out ≠ []) ∧ (0 < r.consumed ∨ hD.pend r.st < hD.pend cs) := by
+  intro r hr
+  have hinp : rest.take n ≠ [] := by
+    intro h
+    have := congrArg List.length h
+    simp only [List.length_take, List.length_nil] at this
+    omega
+  have hlen : (rest.take n).length = n := by simp [List.length_take]; omega
+  have hfl : Flush.none = Flush.full → ∀ k : Nat, k ≤ (rest.take n).length := by intro h; cases h
+  rcases hG with ⟨u, v, w, x, ms, xs, t, xT, hR, hdec, hpre, hms, hcut, hT, hrest, hrem⟩ |
+      ⟨u, v, w', w'', x, hT, hR, hdec, hpre, hw'', hne, hrest, hrem⟩ | ⟨_, _, hrest, _⟩
+  · -- inside a complete member
+    have hip : IsPre (rest.take n) (w ++ (ms.flatten ++ t)) := by rw [← hrest]; exact IsPre.take _ _
+    obtain ⟨h1, h2, h3, h4, h5, h6, h7, h8⟩ := hD.valid w x (ms.flatten ++ t) (rest.take n) room Flush.none hR hdec hip (fun h => by cases h)
+    have hprog := hD.progress w x (ms.flatten ++ t) (rest.take n) room Flush.none hR hdec hip (fun h => by cases h) hroom hinp
+    rw [← hr] at h1 h2 h3 h4 h5 h6 h7 h8 hprog
+    refine ⟨h1, h4, by omega, ?_, h8, hprog⟩
+    by_cases hend : r.res = Res.streamEnd
+    · obtain ⟨hc, hx, hR'⟩ := h6 hend
+      refine ⟨xs.flatten ++ xT, ?_, ?_⟩
+      · have : rest.drop r.consumed = ms.flatten ++ t := by
+          rw [hrest, hc]; simp
+        rw [this]
+        exact G_boundary hD hR' hms hcut hT
+      · rw [hrem, ← hx]; simp
+    · have hR' := h7 hend
+      have htake : (rest.take n).take r.consumed = w.take r.consumed := by
+        rw [List.take_take, Nat.min_eq_left (by omega), hrest, List.take_append_of_le_length h3]
+      refine ⟨x.drop (v ++ r.out).length ++ (xs.flatten ++ xT), ?_, ?_⟩
+      · left
+        refine ⟨u ++ w.take r.consumed, v ++ r.out, w.drop r.consumed, x, ms, xs, t, xT, ?_, ?_, h5, hms, hcut, hT, ?_, rfl⟩
+        · rw [← htake]; exact hR'
+        · rw [List.append_assoc, List.take_append_drop]; exact hdec
+        · rw [hrest, List.drop_append_of_le_length h3]
+      · rw [hrem, IsPre.drop_eq h5]; simp [List.append_assoc]
+  · -- inside the cut-off member
+    have hip : IsPre (rest.take n) ((w' ++ w'') ++ []) := by
+      rw [← hrest]; exact (IsPre.take _ _).append_right _ |>.append_right _
+    obtain ⟨h1, h2, h3, h4, h5, h6, h7, h8⟩ := hD.valid (w' ++ w'') x [] (rest.take n) room Flush.none hR hdec hip (fun h => by cases h)
+    have hprog := hD.progress (w' ++ w'') x [] (rest.take n) room Flush.none hR hdec hip (fun h => by cases h) hroom hinp
+    rw [← hr] at h1 h2 h3 h4 h5 h6 h7 h8 hprog
+    have hw''l : 0 < w''.length := by
+      cases w'' with
+      | nil => exact absurd rfl hw''
+      | cons a b => simp
+    have hend : r.res ≠ Res.streamEnd := by
+      intro he
+      have := (h6 he).1
+      simp only [List.length_append] at this
+      rw [← hrest] at this
+      have : r.consumed ≤ n := by omega
+      omega
+    have hR' := h7 hend
+    have hcw : r.consumed ≤ w'.length := by rw [← hrest]; omega
+    have htake : (rest.take n).take r.consumed = w'.take r.consumed := by
+      rw [List.take_take, Nat.min_eq_left (by omega), hrest]
+    refine ⟨h1, h4, by omega, ⟨x.drop (v ++ r.out).length, ?_, ?_⟩, h8, hprog⟩
+    · right; left
+      refine ⟨u ++ w'.take r.consumed, v ++ r.out, w'.drop r.consumed, w'', x, hT, ?_, ?_, h5, hw'', ?_, ?_, rfl⟩
+      · rw [← htake]; exact hR'
+      · rw [List.append_assoc, ← List.append_assoc (w'.take _), List.take_append_drop]; exact hdec
+      · rcases hne with h | h
+        · left; intro h'; exact h (List.append_eq_nil_iff.1 h').1
+        · by_cases hc0 : r.consumed = 0
+          · right; rw [hc0]; simpa using h
+          · left; intro h'
+            have := (List.append_eq_nil_iff.1 h').2
+            have hl := congrArg List.length this
+            simp only [List.length_take, List.length_nil] at hl
+            omega
+      · rw [hrest]
+    · rw [hrem, IsPre.drop_eq h5]
+  · rw [hrest] at hnr; simp at hnr; omega
+
+/-- one `process_data` call at the end of the wrapped stream (`FLUSH_FULL`, no input) -/
+theorem G_step_full (hD : DecContract C Dec) {T : Bool} {cs : σ} {rem : Bytes} (hG : G hD T cs [] rem)
+    (room : Nat) (hroom : 0 < room) :
+    ∀ r, r = C.step cs [] room Flush.full →
+    (r.res = Res.error ∧ T = true) ∨
+    (r.res ≠ Res.error ∧ r.consumed = 0 ∧ r.out.length ≤ room ∧
+      (∃ rem', G hD T r.st [] rem' ∧ rem = r.out ++ rem') ∧
+      (T = false → r.out = [] → rem = []) ∧ (T = true → r.out ≠ [])) := by
+  intro r hr
+  rcases hG with ⟨u, v, w, x, ms, xs, t, xT, hR, hdec, hpre, hms, hcut, hT, hrest, hrem⟩ |
+      ⟨u, v, w', w'', x, hT, hR, hdec, hpre, hw'', hne, hrest, hrem⟩ | ⟨hT, hR, _, hrem⟩
+  · -- the last member has been consumed completely
+    have hw : w = [] := (List.append_eq_nil_iff.1 hrest.symm).1
+    have hmt := (List.append_eq_nil_iff.1 hrest.symm).2
+    have ht : t = [] := (List.append_eq_nil_iff.1 hmt).2
+    obtain ⟨hms0, hxs0⟩ := Members_flatten_nil hD.dec_nil hms (List.append_eq_nil_iff.1 hmt).1
+    have hTf : T = false := by
+      cases T with
+      | false => rfl
+      | true => exact absurd ht (hT.1 rfl)
+    have hxT : xT = [] := by
+      rcases hcut with ⟨_, h⟩ | ⟨h, _⟩
+      · exact h
+      · exact absurd ht h
+    subst hw ht hms0 hxs0 hxT
+    simp only [List.append_nil, List.flatten_nil] at hdec hrem
+    obtain ⟨h1, h2, h3, h4, h5, h6, h7, h8⟩ := hD.valid [] x [] [] room Flush.full hR (by simpa using hdec) (IsPre.nil _) (fun _ => by simp)
+    have hdrain := hD.drain x room hR hdec hroom
+    rw [← hr] at h1 h2 h3 h4 h5 h6 h7 h8 hdrain
+    right
+    refine ⟨h1, by simpa using h2, h4, ?_, ?_, (by intro h; rw [hTf] at h; cases h)⟩
+    · by_cases hend : r.res = Res.streamEnd
+      · obtain ⟨_, hx, hR'⟩ := h6 hend
+        refine ⟨[], Or.inr (Or.inr ⟨hTf, hR', rfl, rfl⟩), ?_⟩
+        rw [hrem, ← hx]; simp
+      · have hR' := h7 hend
+        refine ⟨x.drop (v ++ r.out).length, Or.inl ⟨u, v ++ r.out, [], x, [], [], [], [], ?_, by simpa using hdec, h5,
+          Members.nil, Or.inl ⟨rfl, rfl⟩, hT, by simp, by simp⟩, ?_⟩
+        · simpa using hR'
+        · rw [hrem, IsPre.drop_eq h5]
+    · intro _ ho
+      rcases hdrain with hd | hd
+      · exact absurd ho hd
+      · obtain ⟨_, hx, _⟩ := h6 hd
+        rw [hrem, ← hx, ho]; simp
+  · -- the stream ends inside a member
+    have hw' : w' = [] := hrest.symm
+    subst hw'
+    have hu : u ≠ [] := by
+      rcases hne with h | h
+      · exact h
+      · exact absurd rfl h
+    have htr := hD.truncated w'' x room hR hu hw'' (by simpa using hdec) hroom
+    rw [← hr] at htr
+    rcases htr with he | ⟨h1, h2, h3, h4, h5, h6⟩
+    · left; exact ⟨he, hT⟩
+    · by_cases herr : r.res = Res.error
+      · left; exact ⟨herr, hT⟩
+      · right
+        refine ⟨herr, h3, h4, ⟨x.drop (v ++ r.out).length, Or.inr (Or.inl ⟨u, v ++ r.out, [], w'', x, hT, h6, hdec, h5, hw'',
+          Or.inl hu, rfl, rfl⟩), ?_⟩, (by intro h; rw [hT] at h; cases h), (fun _ => h2)⟩
+        rw [hrem, IsPre.drop_eq h5]
+  · -- between two members: clean end of the stream
+    have hidle := hD.idle_eof room hR hroom
+    rw [← hr] at hidle
+    obtain ⟨h1, h2, h3, h4⟩ := hidle
+    right
+    refine ⟨h1, h3, by rw [h2]; simp, ⟨[], Or.inr (Or.inr ⟨hT, h4, rfl, rfl⟩), by simp [hrem, h2]⟩, fun _ _ => hrem,
+      (by intro h; rw [hT] at h; cases h)⟩
+
+theorem peek_nil {i : Inner} (h : i.rest = []) :
+    i.peek.1 = [] ∧ i.peek.2.1 = true ∧ i.peek.2.2.rest = [] := by
+  simp [Inner.peek, h]
+
+theorem peek_cons {i : Inner} (h : i.rest ≠ []) :
+    ∃ n, 0 < n ∧ n ≤ i.rest.length ∧ i.peek.1 = i.rest.take n ∧ i.peek.2.1 = false ∧ i.peek.2.2.rest = i.rest := by
+  have hl : i.rest.length ≠ 0 := by
+    intro h0; exact h (List.eq_nil_of_length_eq_zero h0)
+  cases hs : i.script with
+  | nil => exact ⟨i.rest.length, by omega, Nat.le_refl _, by simp [Inner.peek, hl, hs], by simp [Inner.peek, hl], by simp [Inner.peek, hl]⟩
+  | cons k t =>
+    exact ⟨min (k + 1) i.rest.length, by omega, by omega, by simp [Inner.peek, hl, hs], by simp [Inner.peek, hl], by simp [Inner.peek, hl]⟩
+
+/-- what `precache`'s loop achieves -/
+def PrecachePost (hD : DecContract C Dec) (T : Bool) (bufsz : Nat) (buf0 rem0 : Bytes)
+    (r : Except Int (σ × Bytes × Inner)) : Prop :=
+  (r = .error errCompressor ∧ T = true) ∨
+  ∃ cs' o inner' rem', r = .ok (cs', buf0 ++ o, inner') ∧ (buf0 ++ o).length ≤ bufsz ∧ G hD T cs' inner'.rest rem' ∧
+    rem0 = o ++ rem' ∧ (T = false → o = [] → rem0 = []) ∧ (T = true → o ≠ [])
+
+theorem precacheLoop_spec (hD : DecContract C Dec) {bufsz : Nat} {T : Bool} {cs : σ} {buf0 rem0 : Bytes}
+    {inner : Inner} (hG : G hD T cs inner.rest rem0) (hlen : buf0.length < bufsz) :
+    ∃ f r, precacheLoop C bufsz f cs buf0 inner = some r ∧ PrecachePost hD T bufsz buf0 rem0 r := by
+  refine iter_total (precacheBody C bufsz)
+    (fun a => ∃ o rem1, a.2.1 = buf0 ++ o ∧ a.2.1.length < bufsz ∧ G hD T a.1 a.2.2.rest rem1 ∧ rem0 = o ++ rem1)
+    (PrecachePost hD T bufsz buf0 rem0)
+    (fun a => (a.2.2.rest.length, hD.pend a.1)) ?_ (cs, buf0, inner) ⟨[], rem0, by simp, hlen, hG, by simp⟩
+  rintro ⟨cs1, buf1, inner1⟩ ⟨o, rem1, hbuf, hl1, hG1, hrem⟩
+  simp only at hbuf hl1 hG1 hrem
+  have hroom : 0 < bufsz - buf1.length := by omega
+  by_cases hrest : inner1.rest = []
+  · -- end of the wrapped stream: one call with FLUSH_FULL, then leave
+    obtain ⟨hp1, hp2, hp3⟩ := peek_nil hrest
+    rw [hrest] at hG1
+    have hstep := G_step_full hD hG1 (bufsz - buf1.length) hroom _ rfl
+    simp only [precacheBody, hp1, hp2, if_true]
+    rcases hstep with ⟨he, hT⟩ | ⟨hne, hc, hol, ⟨rem', hG', hr'⟩, hF, hTt⟩
+    · rw [if_pos he]
+      exact ⟨fun r hr => by cases hr; exact Or.inl ⟨rfl, hT⟩, fun a' h => by cases h⟩
+    · rw [if_neg hne]
+      rw [ite_self]
+      refine ⟨fun r hr => ?_, fun a' h => by cases h⟩
+      cases hr
+      right
+      refine ⟨(C.step cs1 [] (bufsz - buf1.length) Flush.full).st, o ++ (C.step cs1 [] (bufsz - buf1.length) Flush.full).out,
+        inner1.peek.2.2.advance (C.step cs1 [] (bufsz - buf1.length) Flush.full).consumed, rem', by rw [← List.append_assoc, ← hbuf], ?_, ?_, ?_, ?_, ?_⟩
+      · rw [← List.append_assoc, ← hbuf, List.length_append]; omega
+      · simpa [Inner.advance, hp3] using hG'
+      · rw [hrem, hr', List.append_assoc]
+      · intro hT ho
+        obtain ⟨ho1, ho2⟩ := List.append_eq_nil_iff.1 ho
+        rw [hrem, ho1, hF hT ho2]; rfl
+      · intro hT ho
+        exact hTt hT (List.append_eq_nil_iff.1 ho).2
+  · -- data available: one call with FLUSH_NONE
+    obtain ⟨n, hn0, hn1, hp1, hp2, hp3⟩ := peek_cons hrest
+    obtain ⟨hne, hol, hcn, ⟨rem', hG', hr'⟩, hbf, hprog⟩ := G_step_none hD hG1 n (bufsz - buf1.length) hn0 hn1 hroom _ rfl
+    simp only [precacheBody, hp1, hp2, Bool.false_eq_true, if_false]
+    rw [if_neg hne]
+    by_cases hexit : ((C.step cs1 (inner1.rest.take n) (bufsz - buf1.length) Flush.none).res = Res.bufferFull ||
+        decide (bufsz ≤ (buf1 ++ (C.step cs1 (inner1.rest.take n) (bufsz - buf1.length) Flush.none).out).length)) = true
+    · rw [if_pos hexit]
+      refine ⟨fun r hr => ?_, fun a' h => by cases h⟩
+      cases hr
+      right
+      have hout : (C.step cs1 (inner1.rest.take n) (bufsz - buf1.length) Flush.none).out ≠ [] := by
+        simp only [Bool.or_eq_true, decide_eq_true_eq] at hexit
+        rcases hexit with h | h
+        · exact hbf h
+        · intro h0; rw [h0] at h; simp at h; omega
+      refine ⟨(C.step cs1 (inner1.rest.take n) (bufsz - buf1.length) Flush.none).st,
+        o ++ (C.step cs1 (inner1.rest.take n) (bufsz - buf1.length) Flush.none).out,
+        inner1.peek.2.2.advance (C.step cs1 (inner1.rest.take n) (bufsz - buf1.length) Flush.none).consumed, rem', by rw [← List.append_assoc, ← hbuf], ?_, ?_, ?_, ?_, ?_⟩
+      · rw [← List.append_assoc, ← hbuf, List.length_append]; omega
+      · simpa [Inner.advance, hp3] using hG'
+      · rw [hrem, hr', List.append_assoc]
+      · intro _ ho; exact absurd (List.append_eq_nil_iff.1 ho).2 hout
+      · intro _ ho; exact hout (List.append_eq_nil_iff.1 ho).2
+    · rw [if_neg hexit]
+      simp only [Bool.or_eq_true, decide_eq_true_eq, not_or, Nat.not_le] at hexit
+      refine ⟨fun r hr => (by cases hr), fun a' h => ?_⟩
+      cases h
+      refine ⟨⟨o ++ (C.step cs1 (inner1.rest.take n) (bufsz - buf1.length) Flush.none).out, rem', by rw [← List.append_assoc, ← hbuf], hexit.2, ?_, ?_⟩, ?_⟩
+      · simpa [Inner.advance, hp3] using hG'
+      · rw [hrem, hr', List.append_assoc]
+      · simp only [LexLt, Inner.advance, hp3, List.length_drop]
+        rcases hprog with hp | hp
+        · left; omega
+        · by_cases hc : (C.step cs1 (inner1.rest.take n) (bufsz - buf1.length) Flush.none).consumed = 0
+          · right; exact ⟨by omega, hp⟩
+          · left; omega
+
+/-- invariant of the input stream between two reader operations; `rem` = content not yet in the buffer -/
+def IInv (hD : DecContract C Dec) (T : Bool) (bufsz : Nat) (st : IState σ) (rem : Bytes) : Prop :=
+  st.off ≤ st.buf.length ∧ st.buf.length ≤ bufsz ∧ G hD T st.cs st.inner.rest rem
+
+theorem iGet_spec (hD : DecContract C Dec) {bufsz : Nat} (hb : 0 < bufsz) {T : Bool} {st : IState σ} {rem : Bytes}
+    (hI : IInv hD T bufsz st rem) (want : Nat) :
+    ∃ f0 r, (∀ f, f0 ≤ f → iGet C bufsz f st want = some r) ∧
+      ((r = .error errCompressor ∧ T = true) ∨
+       ∃ st' rem', r = .ok (st', st'.buf.drop st'.off, decide ((st'.buf.drop st'.off).length = 0)) ∧
+         IInv hD T bufsz st' rem' ∧ st.buf.drop st.off ++ rem = st'.buf.drop st'.off ++ rem' ∧
+         (0 < want → st'.buf.drop st'.off = [] → T = false ∧ rem' = [])) := by
+  obtain ⟨hoff, hlen, hG⟩ := hI
+  by_cases hpre : (st.buf.length = 0 || decide (st.buf.length - st.off < (if bufsz < want then bufsz else want))) = true
+  · -- precache
+    have hl0 : (st.buf.drop st.off).length < bufsz := by
+      simp only [Bool.or_eq_true, decide_eq_true_eq] at hpre
+      rw [List.length_drop]
+      rcases hpre with h | h
+      · omega
+      · split at h <;> omega
+    obtain ⟨f0, r, hrun, hpost⟩ := precacheLoop_spec hD hG hl0
+    rcases hpost with ⟨rfl, hT⟩ | ⟨cs', o, inner', rem', rfl, hl', hG', hrem, hF, hTt⟩
+    · refine ⟨f0, .error errCompressor, fun f hf => ?_, Or.inl ⟨rfl, hT⟩⟩
+      have := iter_mono _ _ _ _ hrun f hf
+      simp only [iGet, hpre, if_true, precache, precacheLoop] at this ⊢
+      rw [this]
+    · refine ⟨f0, _, fun f hf => ?_, Or.inr ⟨{ cs := cs', buf := st.buf.drop st.off ++ o, off := 0, inner := inner' }, rem', rfl,
+        ⟨Nat.zero_le _, hl', hG'⟩, ?_, ?_⟩⟩
+      · have := iter_mono _ _ _ _ hrun f hf
+        simp only [iGet, hpre, if_true, precache, precacheLoop] at this ⊢
+        rw [this]
+      · simp [hrem, List.append_assoc]
+      · intro _ hv
+        simp only [List.drop_zero] at hv
+        obtain ⟨h1, h2⟩ := List.append_eq_nil_iff.1 hv
+        cases hT : T with
+        | false =>
+          have := hF hT h2
+          rw [this] at hrem
+          exact ⟨rfl, (List.append_eq_nil_iff.1 hrem.symm).2⟩
+        | true => exact absurd h2 (hTt hT)
+  · -- enough buffered
+    refine ⟨0, _, fun f _ => ?_, Or.inr ⟨st, rem, rfl, ⟨hoff, hlen, hG⟩, rfl, ?_⟩⟩
+    · simp only [iGet, hpre]; rfl
+    · intro hw hv
+      exfalso
+      simp only [Bool.or_eq_true, decide_eq_true_eq, not_or, Nat.not_lt] at hpre
+      have := congrArg List.length hv
+      simp only [List.length_drop, List.length_nil] at this
+      obtain ⟨h1, h2⟩ := hpre
+      split at h2 <;> omega
+
+theorem iRead_spec (hD : DecContract C Dec) {bufsz : Nat} (hb : 0 < bufsz) {T : Bool} (X : Bytes) :
+    ∀ (ops : List (Nat × Nat)) (st : IState σ) (rem acc : Bytes), IInv hD T bufsz st rem →
+      X = acc ++ (st.buf.drop st.off ++ rem) → (∀ op ∈ ops, 0 < op.1) →
+      ∃ f0 r, (∀ f, f0 ≤ f → iRead C bufsz f st ops acc = some r) ∧
+        ((r = .error errCompressor ∧ T = true) ∨
+         ∃ st' acc' eof, r = .ok (st', acc', eof) ∧ IsPre acc' X ∧ (eof = true → T = false ∧ acc' = X) ∧
+           ((∀ op ∈ ops, 0 < op.2) → eof = true ∨ acc.length + ops.length ≤ acc'.length)) := by
+  intro ops
+  induction ops with
+  | nil =>
+    intro st rem acc _ hX _
+    exact ⟨0, _, fun f _ => rfl, Or.inr ⟨st, acc, false, rfl, ⟨_, hX⟩, (by intro h; cases h), fun _ => Or.inr (by simp)⟩⟩
+  | cons op ops ih =>
+    intro st rem acc hI hX hw
+    obtain ⟨want, take⟩ := op
+    obtain ⟨f1, r1, hrun1, hpost1⟩ := iGet_spec hD hb hI want
+    rcases hpost1 with ⟨rfl, hT⟩ | ⟨st1, rem1, rfl, hI1, hsame, hempty⟩
+    · refine ⟨f1, .error errCompressor, fun f hf => ?_, Or.inl ⟨rfl, hT⟩⟩
+      simp only [iRead, hrun1 f hf]
+    · by_cases hv : (st1.buf.drop st1.off).length = 0
+      · -- end of stream reported
+        have hvn : st1.buf.drop st1.off = [] := List.eq_nil_of_length_eq_zero hv
+        obtain ⟨hT, hr⟩ := hempty (hw (want, take) (List.mem_cons_self ..)) hvn
+        refine ⟨f1, .ok (st1, acc, true), fun f hf => ?_, Or.inr ⟨st1, acc, true, rfl, ⟨_, hX⟩, ?_, fun _ => Or.inl rfl⟩⟩
+        · simp only [iRead, hrun1 f hf, hv, decide_true, if_true]
+        · intro _
+          refine ⟨hT, ?_⟩
+          rw [hX, hsame, hvn, hr]; simp
+      · -- data: take some, go on
+        let n := min take (st1.buf.drop st1.off).length
+        have hnle : n ≤ st1.buf.length - st1.off := by
+          simp only [n, List.length_drop]; omega
+        obtain ⟨hoff1, hlen1, hG1⟩ := hI1
+        have hadv : iAdvance st1 n = some { st1 with off := st1.off + n } := by
+          simp only [iAdvance]; rw [if_pos]; constructor <;> omega
+        have hI2 : IInv hD T bufsz { st1 with off := st1.off + n } rem1 := ⟨by simp only; omega, hlen1, hG1⟩
+        have hsplit : st1.buf.drop st1.off = (st1.buf.drop st1.off).take n ++ st1.buf.drop (st1.off + n) := by
+          rw [← List.drop_drop, List.take_append_drop]
+        have hX2 : X = (acc ++ (st1.buf.drop st1.off).take n) ++ (st1.buf.drop (st1.off + n) ++ rem1) := by
+          rw [hX, hsame]
+          conv => lhs; rw [hsplit]
+          simp [List.append_assoc]
+        obtain ⟨f2, r2, hrun2, hpost2⟩ := ih { st1 with off := st1.off + n } rem1 (acc ++ (st1.buf.drop st1.off).take n) hI2 hX2
+          (fun op hop => hw op (List.mem_cons_of_mem _ hop))
+        refine ⟨max f1 f2, r2, fun f hf => ?_, ?_⟩
+        · simp only [iRead, hrun1 f (by omega), hv, decide_false, Bool.false_eq_true, if_false]
+          rw [show iAdvance st1 (min take (List.drop st1.off st1.buf).length) = _ from hadv]
+          exact hrun2 f (by omega)
+        · rcases hpost2 with h | ⟨st', acc', eof, rfl, hp, he, hlive⟩
+          · exact Or.inl h
+          · refine Or.inr ⟨st', acc', eof, rfl, hp, he, fun ht => ?_⟩
+            rcases hlive (fun op hop => ht op (List.mem_cons_of_mem _ hop)) with h | h
+            · exact Or.inl h
+            · right
+              have ht0 : 0 < take := ht (want, take) (List.mem_cons_self ..)
+              have : 0 < n := by simp only [n]; omega
+              simp only [List.length_append, List.length_take, List.length_cons] at h ⊢
+              omega
+
+end DecSide
+
 /-! ## the toy codec -/
 namespace Toy
 
